@@ -63,6 +63,9 @@ type Explorer struct {
 	// Stop is polled between executions; when it returns true the search ends
 	// and Complete is false.
 	Stop func() bool
+	// Run and Name (optional) put every execution under the stall guard of the run
+	Ctx  *Run
+	Name string
 
 	Executions int64
 	Points     int64
@@ -119,7 +122,13 @@ func (e *Explorer) Run() {
 					return
 				}
 				x := &X{prefix: p}
-				e.Body(x)
+				if e.Ctx != nil {
+					id := e.Ctx.BeginLimit(MkCase(e.Ctx.ID, "explorer-prefix", map[string]interface{}{"explorer": e.Name, "prefix": p}), "stall: an execution of explorer \""+e.Name+"\" did not return", StallLimit)
+					e.Body(x)
+					e.Ctx.End(id)
+				} else {
+					e.Body(x)
+				}
 				atomic.AddInt64(&e.Executions, 1)
 				atomic.AddInt64(&e.Points, int64(len(x.Choices)))
 				for {
